@@ -27,8 +27,12 @@ from pyanalyze.value import (
     AnyValue,
     KnownValue,
     MultiValuedValue,
+    SequenceValue,
+    SubclassValue,
+    TypedDictValue,
     TypeVarValue,
     Value,
+    annotate_value,
     flatten_values,
     is_union,
 )
@@ -465,7 +469,7 @@ def check_accepts(r, ops, rec, st, via: str) -> None:
         rec("accepts", f"{_cls(op)} rejected by {_cls(r, op, ctx)}", f"{via}: result {r} does not accept operand {op}")
 
 
-def laws_unary(a, spec, maps, rec, st) -> None:
+def laws_unary(a, spec, maps, rec, st, builder=None) -> None:
     st.count("unary_cases")
     u = pv.unite_values
     aa = a | a
@@ -530,7 +534,10 @@ def laws_unary(a, spec, maps, rec, st) -> None:
                 check_eq_hash(r, a, rec, st, "subst(a,m), a", mspec)
         elif tvs & dom:
             st.count("subst_changed")
-        check_subst_complete(r, m, rec, st, f"subst({a}, m)", mspec)
+        complete = check_subst_complete(r, m, rec, st, f"subst({a}, m)", mspec)
+        # a result that still mentions a variable differs from the reference for that very reason: one report
+        if builder is not None and (tvs & dom) and complete:
+            check_subst_by_parts(builder, a, spec, r, mspec, m, rec, st)
 
 
 def _has_leftover(obj, m) -> bool:
@@ -570,6 +577,9 @@ def _substitutable_children(obj, depth=0):
     if fs is not None:
         for _, c in fs:
             visit(c, 0)
+    elif isinstance(obj, (tuple, list)):  # e.g. stacked_scopes.Composite (a NamedTuple with its own substitution)
+        for c in obj:
+            visit(c, 0)
     return out
 
 
@@ -590,7 +600,9 @@ def subst_culprit(node, m, depth: int = 0) -> str:
     return type(node).__name__
 
 
-def check_subst_complete(r, m, rec, st, what: str, ms=None) -> None:
+def check_subst_complete(r, m, rec, st, what: str, ms=None) -> bool:
+    """No variable of the map's domain may be reachable in r - neither by pyanalyze's walk_values() nor by an
+    independent walk over the dataclass fields / tuples / dicts of the result.  Returns whether that holds."""
     leftover = None
     st.count("subst_complete_checked")
     try:
@@ -600,7 +612,7 @@ def check_subst_complete(r, m, rec, st, what: str, ms=None) -> None:
                 break
     except Exception as e:  # noqa: BLE001
         rec("walk-raises", type(e).__name__, f"walk_values of {what} raised {e!r}", ms)
-        return
+        return True
     if leftover is not None or find_typevar_holder(r, m) is not None:
         rec(
             "subst-complete",
@@ -608,6 +620,73 @@ def check_subst_complete(r, m, rec, st, what: str, ms=None) -> None:
             f"{what} = {r} still mentions a substituted variable",
             ms,
         )
+        return False
+    return True
+
+
+def _splices_paramspec(spec, dom) -> bool:
+    """Does a callable in `spec` (direct) end in a ParamSpec that the map binds?  Its parameters are then spliced."""
+    sigs = [spec] if spec[0] == "callable" else spec[1] if spec[0] == "overloaded" else []
+    return any(k == "ps" and a[0] == "paramspec" and a[1] in dom for sg in sigs for _, k, _, a in sg[1])
+
+
+def subst_by_parts(builder, a, spec, mspec, m):
+    """Reference result of subst(a, m), one level deep: substitute in the direct parts (pyanalyze's substitution of
+    the *parts*), then apply a's own constructor to them - the documented smart constructor where the raw one is not
+    closed under substitution (Type[...]: SubclassValue.make, Annotated: annotate_value, unions: unite_values).
+    Returns (expected, None) or (None, why_skipped)."""
+    kind = spec[0]
+    if kind == "typevar":
+        tv = vg.TYPEVARS[spec[1]][0]
+        return (m[tv] if tv in m else a), None
+    kids = vg.children(spec)
+    if not kids:
+        return None, "no-parts"
+    if _splices_paramspec(spec, set(mspec)):
+        return None, "paramspec-parameters-spliced"
+    new = [builder.build(k).substitute_typevars(m) for k in kids]
+    if kind == "subclass":
+        return SubclassValue.make(new[0], exactly=bool(spec[2])), None
+    if kind == "union":
+        return pv.unite_values(*new), None
+    if kind == "annotated":
+        metas = [builder.build_meta(x).substitute_typevars(m) for x in spec[2]]
+        return annotate_value(new[0], metas), None
+    if kind in ("callable", "overloaded"):
+        sigs = [spec] if kind == "callable" else spec[1]
+        at = 0
+        for sg in sigs:
+            for (_, k, _, _), v in zip(sg[1], new[at:]):
+                # Signature.make (the builder's constructor) would expand these into several parameters
+                if (k == "va" and isinstance(v, SequenceValue)) or (k == "vk" and isinstance(v, TypedDictValue)):
+                    return None, "variadic-parameter-expanded-by-Signature.make"
+            at += len(sg[1]) + 1
+    return builder.build_shell(spec, new), None
+
+
+def check_subst_by_parts(builder, a, spec, r, mspec, m, rec, st) -> None:
+    """subst(C(x1..xn), m) == C(subst(x1, m) .. subst(xn, m)): every occurrence is replaced, by the map's value, and
+    nothing else changes (Type[X].subst(m) == Type[X.subst(m)], ...)."""
+    try:
+        expected, skipped = subst_by_parts(builder, a, spec, mspec, m)
+    except Exception as e:  # noqa: BLE001
+        st.histo("subst_by_parts_reference_raised", f"{spec[0]}:{type(e).__name__}")
+        return
+    if expected is None:
+        st.histo("subst_by_parts_skipped", skipped)
+        return
+    st.count("subst_by_parts_checked")
+    st.count("law_evaluations")
+    st.histo("subst_by_parts_constructor", vg.skeleton(spec, 1))
+    if not eqm(r, expected):
+        rec(
+            "subst-by-parts",
+            f"{vg.skeleton(spec, 1)}:{diff_reason(r, expected, neq_bad)}",
+            f"subst({a}, m) = {r!r} but its constructor over the substituted parts gives {expected!r}",
+            mspec,
+        )
+    else:
+        check_eq_hash(r, expected, rec, st, "subst(a,m), constructor over substituted parts", mspec)
 
 
 def laws_binary(a, b, maps, rec, st) -> None:
@@ -684,7 +763,7 @@ def evaluate(ops, mapspecs):
         out.append((law, reason, what() if callable(what) else what))
 
     if len(vals) == 1:
-        laws_unary(vals[0], ops[0], maps, rec, st)
+        laws_unary(vals[0], ops[0], maps, rec, st, builder=b)
     elif len(vals) == 2:
         laws_binary(vals[0], vals[1], maps, rec, st)
     else:
@@ -1020,7 +1099,7 @@ def shard(ctx) -> None:
         if not ctx.mine(i):
             continue
         cur["ops"] = [specs[i]]
-        laws_unary(vals[i], specs[i], maps, rec, st)
+        laws_unary(vals[i], specs[i], maps, rec, st, builder=builder)
         ctx.count("evaluations")
 
     # ---- binary (x every map) + ternary: every ordered pair / triple of the pool
@@ -1048,13 +1127,62 @@ def shard(ctx) -> None:
             ctx.count("evaluations", n)
     st.flush(ctx)
 
-    # ---- random deeper cases
+    # ---- nesting matrix: every slot of every constructor x every constructor (type variable at the leaf)
+    nest = vg.nesting_specs(levels=2, level2_inners=ctx.pick(("TypeVar", "Generic"), None))
+    nb = vg.Builder()
+    nmapspecs = [dict(m) for m in vg.CORE_MAPS] + [dict(m) for m in vg.NEST_MAPS]
+    nmaps = [(ms, nb.build_map(ms)) for ms in nmapspecs]
+    k = len(vg.CORE_MAPS)
+    pair_maps = nmaps[:4] + nmaps[k:k + 2] + nmaps[-4:-3]
+    partner_specs = [["generic", "set", [["typevar", "T"]]], ["typed", "int"], ["typevar", "T"]]
+    partners = [nb.build(x) for x in partner_specs]
+    n_level1 = len(vg.nesting_specs(levels=1))
+    for idx, (tag, spec) in enumerate(nest):
+        if not ctx.mine(idx):
+            continue
+        a = nb.build(spec)
+        cur["ops"] = [spec]
+        laws_unary(a, spec, nmaps, rec, st, builder=nb)
+        ctx.count("evaluations")
+        ctx.count("nesting_cases")
+        st.histo("nesting_slot", tag.split(" <- ")[0])
+        st.histo("nesting_inner", tag.split(" <- ")[-1])
+        st.histo("nesting_depth", str(tag.count(" <- ")))
+        ctx.nontrivial(("nest", tag))
+        if idx < n_level1 or ctx.tier != "quick":
+            for ps, pval in zip(partner_specs, partners):
+                cur["ops"] = [spec, ps]
+                laws_binary(a, pval, pair_maps, rec, st)
+                ctx.count("nesting_pair_cases")
+    # ---- neighbouring values (same parts in another order / other flags): all ordered pairs and triples of a group
+    gi = 0
+    for group in vg.NEIGHBOUR_GROUPS:
+        gi += 1
+        if not ctx.mine(gi):
+            continue
+        gvals = [nb.build(x) for x in group]
+        for i, x in enumerate(gvals):
+            cur["ops"] = [group[i]]
+            laws_unary(x, group[i], nmaps[:3], rec, st, builder=nb)
+            for j, y in enumerate(gvals):
+                cur["ops"] = [group[i], group[j]]
+                laws_binary(x, y, nmaps[:3], rec, st)
+                ctx.count("neighbour_pair_cases")
+                if eq(x, y) and i != j:
+                    st.count("neighbour_pairs_equal")
+                for kk, z in enumerate(gvals):
+                    cur["ops"] = [group[i], group[j], group[kk]]
+                    laws_ternary(x, y, z, rec, st)
+            ctx.count("evaluations")
+    st.flush(ctx)
+
+    # ---- random deeper cases (wide grammar: see vg.random_spec)
     rng = ctx.rng
     n_random = ctx.pick(20800, 104000) // ctx.nshards  # total work does not depend on --jobs
     ops = None
     for t in range(n_random):
         depth = rng.choice([1, 2, 2, 3])
-        ops = [vg.random_spec(rng, depth) for _ in range(3)]
+        ops = [vg.random_spec(rng, depth, True, True) for _ in range(3)]
         if rng.random() < 0.25:
             ops[rng.randrange(3)] = rng.choice(specs)
         if rng.random() < 0.15:
@@ -1065,11 +1193,11 @@ def shard(ctx) -> None:
         except Exception as e:  # noqa: BLE001
             ctx.histo("generator_build_failed", type(e).__name__)
             continue
-        rmaps = [vg.random_map_spec(rng, rng.choice([0, 1, 1, 2])), rng.choice(mapspecs)]
+        rmaps = [vg.random_map_spec(rng, rng.choice([0, 1, 1, 2]), True), rng.choice(mapspecs)]
         bm = [(ms, b.build_map(ms)) for ms in rmaps]
         for x in range(3):
             cur["ops"] = [ops[x]]
-            laws_unary(vs[x], ops[x], bm, rec, st)
+            laws_unary(vs[x], ops[x], bm, rec, st, builder=b)
         for x, y in ((0, 1), (1, 2), (2, 0)):
             cur["ops"] = [ops[x], ops[y]]
             laws_binary(vs[x], vs[y], bm, rec, st)
@@ -1094,6 +1222,7 @@ def shard(ctx) -> None:
         "accepts": c.get("accepts_true", 0) + c.get("accepts_skipped_not_reflexive", 0),
         "eq-hash": c.get("eq_pairs_hash_checked", 0), "subst-identity": c.get("subst_identity_checked", 0),
         "subst-complete": c.get("subst_complete_checked", 0), "subst-commutes-with-unite": c.get("subst_commutes_checked", 0),
+        "subst-by-parts": c.get("subst_by_parts_checked", 0),
     }.items():
         ctx.histo("law_evaluations_by_law", law, n)
 
